@@ -190,6 +190,11 @@ func (v *Vue) evaluateNodeAsElement(ctx VueContext, node *html.Node, depth int) 
 		return result, nil
 	}
 
+	// A chosen <slot v-if / v-else-if / v-else> is filled like any other slot.
+	if node.Data == "slot" {
+		return v.evalSlot(ctx, node, ctx.SlotScope)
+	}
+
 	// A conditional include (<template v-if="..." include="...">, or a shorthand component tag
 	// with v-if / v-else) is an include like any other once its branch has been chosen.
 	if node.Data == "template" && helpers.HasAttr(node, "include") {
